@@ -1,7 +1,78 @@
-(* Whitespace-reduced trees and their legal whitespace variants (C03, part A).  Definitions only. *)
+(* Whitespace-reduced trees and their legal whitespace variants (C03, part A).  Definitions only;
+   the facts are in WsVariantFacts.v.
+
+   ws_variant t t' : t is in normal form (whitespace-reduced) and t' differs from it only by whitespace
+   at places where the reduction drops it again:
+     (i)   a whitespace-only text added before the first / after the last child of an element that is
+           not under xml:space="preserve" (also as the only content of an element that held one space);
+     (ii)  the single leading / trailing space of a text, or a one-space text between two non-text
+           siblings, replaced by any non-empty whitespace run;
+     (iii) inner single spaces of a text replaced by whitespace runs (what line wrapping does);
+     nothing changes inside elements written verbatim (xml:space="preserve"), comments and PIs.
+   t' is the tree as a parser presents it (adjacent character data merged, no empty text).
+   The relation is stated on tails of child lists, indexed by what precedes the tail, and carries the
+   normal form in its own premises. *)
 From Delb.Base Require Import PyStr PyStrFacts.
 From Delb.Tree Require Import ATree Merge.
 From Delb.Ws Require Import Reduce.
 
 (* a tree whose whitespace has been reduced: reducing it again changes nothing *)
 Definition reduced (t : node) : Prop := reduce_model t = t.
+
+Inductive sib := Start | AfterN | AfterX.
+Definition is_start (p : sib) : bool := match p with Start => true | _ => false end.
+
+(* k' has non-whitespace ends and collapses to the core k: k with inner spaces widened *)
+Definition inner_variant (k k' : str) : Prop := head_nows k' /\ last_nows k' /\ collapse k' = k.
+
+Definition txt (w : str) : list node := if null w then [] else [Text w].
+
+Inductive wvt : node -> node -> Prop :=
+| wvt_verbatim n : clean n = true -> reduce_with reduce_text_spec false n = n -> wvt n n
+| wvt_tag ns name attrs ks ks' : directive attrs false = false -> wvk ks ks' ->
+    wvt (Tag ns name attrs ks) (Tag ns name attrs ks')
+with wv : sib -> list node -> list node -> Prop :=
+| wv_nil_start : wv Start [] []
+| wv_nil_afterX : wv AfterX [] []
+| wv_nil_afterN w : all_ws w -> wv AfterN [] (txt w)
+| wv_N_start w x x' r r' : all_ws w -> is_text x = false -> wvt x x' -> wv AfterN r r' ->
+    wv Start (x :: r) (txt w ++ x' :: r')
+| wv_N prev x x' r r' : prev <> Start -> is_text x = false -> wvt x x' -> wv AfterN r r' ->
+    wv prev (x :: r) (x' :: r')
+| wv_X prev lead trail k k' w1 w2 r r' : core k -> inner_variant k k' -> prev <> AfterX ->
+    (prev = Start -> lead = false) -> (r = [] -> trail = false) ->
+    all_ws w1 -> all_ws w2 ->
+    (prev <> Start -> null w1 = negb lead) -> (r <> [] -> null w2 = negb trail) ->
+    wv AfterX r r' ->
+    wv prev (Text (optsp lead ++ k ++ optsp trail) :: r) (Text (w1 ++ k' ++ w2) :: r')
+| wv_space w r r' : all_ws w -> w <> [] -> r <> [] -> wv AfterX r r' ->
+    wv AfterN (Text [SP] :: r) (Text w :: r')
+with wvk : list node -> list node -> Prop :=
+| wvk_only_space w : all_ws w -> w <> [] -> wvk [Text [SP]] [Text w]
+| wvk_list l l' : wv Start l l' -> wvk l l'.
+
+Scheme wvt_mut := Induction for wvt Sort Prop
+with wv_mut := Induction for wv Sort Prop
+with wvk_mut := Induction for wvk Sort Prop.
+
+Definition ws_variant : node -> node -> Prop := wvt.
+
+(* the normal form as a predicate of its own (the input side of the relation) *)
+Inductive nft : node -> Prop :=
+| nft_verbatim n : clean n = true -> reduce_with reduce_text_spec false n = n ->
+    match n with Tag _ _ attrs _ => directive attrs false = true | Text _ => False | _ => True end -> nft n
+| nft_tag ns name attrs ks : directive attrs false = false -> nfk ks -> nft (Tag ns name attrs ks)
+with nf : sib -> list node -> Prop :=
+| nf_nil prev : nf prev []
+| nf_N prev x r : is_text x = false -> nft x -> nf AfterN r -> nf prev (x :: r)
+| nf_X prev lead trail k r : core k -> prev <> AfterX ->
+    (prev = Start -> lead = false) -> (r = [] -> trail = false) ->
+    nf AfterX r -> nf prev (Text (optsp lead ++ k ++ optsp trail) :: r)
+| nf_space r : r <> [] -> nf AfterX r -> nf AfterN (Text [SP] :: r)
+with nfk : list node -> Prop :=
+| nfk_only_space : nfk [Text [SP]]
+| nfk_list l : nf Start l -> nfk l.
+
+Scheme nft_mut := Induction for nft Sort Prop
+with nf_mut := Induction for nf Sort Prop
+with nfk_mut := Induction for nfk Sort Prop.
